@@ -116,6 +116,13 @@ def env_rules(ctx, m, owners, submissions=True):
             last_set = [c for c in step.set_times if c.b not in step.body]
             ctx.check(after_loop and all(step.q.body.dominates(c.b, w.b) for c in last_set) and bool(last_set), "snapshot", owner + "|after-step", w.loc(),
                       "the refresh happens after the processing loop and the final clock write", "the snapshot is refreshed before the step's processing is complete")
+            # .. and so is the READ of the live data it stores: a value taken before the batch is processed and stored afterwards is stale
+            reads = [c for c in step.q.calls("level_2_data") if c.args and fld(c.args[0], obj)]
+            fresh = bool(reads) and step.head is not None and all(
+                c.b not in step.body and step.q.cfg.strictly_after(step.head, c.b) and not step.q.cfg.can_reach(c.b, step.head) and all(step.q.body.dominates(t_.b, c.b) for t_ in last_set)
+                for c in reads)
+            ctx.check(fresh, "snapshot", owner + "|fresh-read", w.loc(), "the live level-2 data stored in the snapshot is read after the processing loop and the final clock write",
+                      "the level-2 data stored in the snapshot is read before the step's processing is complete (stale when stored)")
         new = getter("new")
         r = m.qi(new).ret()       # (a private struct grouping the recorded data may be built by its own private constructor)
         agg = [x for x in walk(r) if x[0] == "agg" and x[1] == "adt" and x[2].endswith(owner + "::" + owner)]
